@@ -27,6 +27,20 @@ def mentions(e, field):
     return any(is_e(q, "fld") and q[2] == field for q in walk(e))
 
 
+def acc_locals(f, field):
+    """locals that carry the running total of `field` through a function: initialised from the field, afterwards only increased (`total = req->headers_size; ... total += len; ...
+    req->headers_size = total`).  Whether the total is written back on every exit is decided by evaluation (C25-headers-eval)."""
+    out = {}
+    for el in f.elems():
+        if el.e[0] == "decl" and len(el.e) > 3 and el.e[3] is not None and fields_of(strip(el.e[3]))[-1:] == [field] and is_e(strip(el.e[3]), "fld"):
+            out[el.e[1]] = True
+    for el, lhs, op, rhs in f.stores():
+        l = strip(lhs)
+        if is_e(l, "var") and l[1] in out and el.e[0] != "decl" and op != "+=":
+            out[l[1]] = False
+    return set(k for k, v in out.items() if v)
+
+
 def rule_monotone(P):
     r = Rule("C25-monotone", "K2/K4", "headers_size/body_size are only increased; plain stores are the initialisers", floor=6)
     for f in P.all_fns:
@@ -35,6 +49,8 @@ def rule_monotone(P):
             if not fl or fl[0] not in SIZEF:
                 continue
             ok = op == "+=" or (op == "=" and (f.name, fl[0]) in INIT_OK)
+            if not ok and op == "=" and is_e(strip(rhs), "var") and strip(rhs)[1] in acc_locals(f, fl[0]):
+                ok = True       # the running total comes back from a local that was only increased
             r.inst((f.name, el.n), {"fn": f.name, "site": el.where(), "store": show(el.e)[:80]})
             if not ok:
                 r.bad("K4:%s:size-counter-overwritten:%s" % (f.name, fl[0].split(".")[1]), el.where(), f.name,
@@ -233,6 +249,8 @@ def rule_lines(P):
         f = P.fn(name)
         reads = [el for el in f.calls("evbuffer_readln")]
         cnt = [el for el, lhs, op, rhs in f.stores() if fields_of(lhs)[-1:] == ["evhttp_request.headers_size"] and op in ("+=", "=")]
+        acc = acc_locals(f, "evhttp_request.headers_size")
+        cnt += [el for el, lhs, op, rhs in f.stores() if is_e(strip(lhs), "var") and strip(lhs)[1] in acc and op == "+="]
         for rd in reads:
             # the length variable handed to readln
             lv = strip(rd.e[2][1])
@@ -277,6 +295,118 @@ def rule_lines(P):
     return r
 
 
+def rule_headers_eval(P):
+    """evhttp_parse_headers_ evaluated on scripted reads: the contract of ONE call composes over any number of reads"""
+    from ..cmem import MEM0, mem_put
+    import itertools
+    r = Rule("C25-headers-eval", "K6", "one call of evhttp_parse_headers_: every line read is added to the running total kept in the request, the total is compared with max_headers_size before "
+             "the line is used, what is still buffered counts when more data is awaited, and the total survives the call", floor=300)
+    f = P.fn("evhttp_parse_headers_")
+    req, buf = f.params[0][0], f.params[1][0]
+    TOO_LONG, ALL, MORE = P.enum_val("DATA_TOO_LONG"), P.enum_val("ALL_DATA_READ"), P.enum_val("MORE_DATA_EXPECTED")
+    KINDS = {"hdr": b"K:v", "cont": b" x", "blank": b""}
+    MAX = 100
+    scripts = [()]
+    for n in (1, 2, 3):
+        for lens in itertools.product((10, 60), repeat=n):
+            for last in ("hdr", "blank") + (("cont",) if n > 1 else ()):
+                scripts.append(tuple((l, "hdr") for l in lens[:-1]) + ((lens[-1] if last != "blank" else 0, last),))
+    nbad = 0
+    for script in scripts:
+        for h0 in (0, 35, 95):
+            for leftover in (0, 30, 70):
+                for evcon in (1, 0):
+                    env = {"#typed": 1, "#bytemem": 1, req: PPtr("req"), buf: PPtr("buf"), ("@", "req", "#zero"): 1, ("@", "buf", "#zero"): 1,
+                           ("@", "req", "evhttp_request.headers_size"): h0, ("@", "req", "evhttp_request.input_headers"): PPtr("hdrs"), ("@", "hdrs", "#zero"): 1,
+                           ("@", "req", "evhttp_request.evcon"): PPtr("evcon") if evcon else 0, ("@", "evcon", "#zero"): 1, ("@", "evcon", "evhttp_connection.max_headers_size"): MAX,
+                           "#i": 0, "#used": ()}
+                    for i, (l, k) in enumerate(script):
+                        mem_put(env, MEM0 + 100 * i, KINDS[k])
+
+                    def hook(el, e_, script=script, leftover=leftover):
+                        n = callee_name(el.e)
+                        a = el.e[2]
+                        if n == "evbuffer_readln":
+                            i = e_["#i"]
+                            lp = strip(a[1])
+                            if i >= len(script):
+                                return 0
+                            if not (is_e(lp, "addr") and is_e(strip(lp[1]), "var")):
+                                return "impure"
+                            e_[strip(lp[1])[1]] = script[i][0]
+                            e_["#i"] = i + 1
+                            return MEM0 + 100 * i
+                        if n == "evbuffer_get_length":
+                            return leftover
+                        if n in ("event_mm_free_", "evutil_rtrim_lws_"):
+                            return 0
+                        if n == "evhttp_field_name_is_token":
+                            return 1
+                        if n in ("strspn",):
+                            return 0
+                        if n in ("evhttp_add_header", "evhttp_append_to_last_header", "evhttp_add_header_internal"):
+                            e_["#used"] = e_["#used"] + (e_["#i"],)
+                            return 0
+                        if n in ("strsep", "__strsep", "__strsep_1c", "__strsep_g"):
+                            sp = strip(a[0])
+                            if not (is_e(sp, "addr") and is_e(strip(sp[1]), "var")):
+                                return "impure"
+                            v = strip(sp[1])[1]
+                            start = e_.get(v)
+                            if not isinstance(start, int):
+                                return "impure"
+                            k = start
+                            while e_.get(("m", k)) not in (None, 0, ord(":")):
+                                k += 1
+                            if e_.get(("m", k)) == ord(":"):
+                                e_[("m", k)] = 0
+                                e_[v] = k + 1
+                            else:
+                                e_[v] = 0
+                            return start
+                        return None
+                    outs = [o for o in run_all(f, (f.entry, 0), env, lambda el: False, P, hook, max_steps=1500) if not (o.kind == "exit" and o.why == "noreturn")]
+                    # the oracle
+                    total, exp, used = h0, None, 0
+                    for l, k in script:
+                        total += l
+                        if evcon and total > MAX:
+                            exp = TOO_LONG
+                            break
+                        if k == "blank":
+                            exp = ALL
+                            break
+                        used += 1
+                    if exp is None:
+                        exp = TOO_LONG if (evcon and total + leftover > MAX) else MORE
+                    for o in outs:
+                        if o.kind != "ret":
+                            r.brk("evhttp_parse_headers_(%s): %s %s" % (script, o.kind, o.why))
+                            return r
+                        try:
+                            val = evalx(normx(o.at.e[1]), o.env, P)
+                        except Exception:
+                            val = None
+                        if isinstance(val, int) and val >= 1 << 31:
+                            val -= 1 << 32          # the enumeration has negative members
+                        kept = o.env.get(("@", "req", "evhttp_request.headers_size"))
+                        r.inst((script, h0, leftover, evcon), {"lines": [list(x) for x in script], "headers_size_before": h0, "still_buffered": leftover, "has_connection": bool(evcon),
+                                                              "returns": val, "headers_size_after": kept, "lines_used": len(o.env["#used"])})
+                        bad = None
+                        if val != exp:
+                            bad = ("result", "returns %r, expected %r" % (val, exp))
+                        elif len(o.env["#used"]) != used:
+                            bad = ("lines-used", "%d header lines handed on, expected %d (a line is used only after the total that includes it passed the limit)" % (len(o.env["#used"]), used))
+                        elif exp in (ALL, MORE) and kept != total:
+                            bad = ("total-not-kept", "req->headers_size is %r after the call, expected %d: the next read starts from a total that forgot these lines, and a header section "
+                                   "arriving in several reads is never limited" % (kept, total))
+                        if bad and nbad < 4:
+                            nbad += 1
+                            r.bad("K6:evhttp_parse_headers_:%s" % bad[0], "%s:%d" % (f.file, f.line), f.name,
+                                  "headers_size=%d, max_headers_size=%s, lines (length, kind) %s, %d bytes still buffered: %s" % (h0, MAX if evcon else "none (no connection)", list(script), leftover, bad[1]))
+    return r
+
+
 def run(ctx, config):
     P = ctx.prog(UNITS, config)
-    return [rule_monotone(P), rule_counted(P), rule_checked(P), rule_wrap_declared(P), rule_lines(P)]
+    return [rule_monotone(P), rule_counted(P), rule_checked(P), rule_wrap_declared(P), rule_lines(P), rule_headers_eval(P)]
